@@ -1,4 +1,5 @@
 (* C42/C44 - invariants for the completeness (quiescence) theorem. *)
+Set Warnings "-unused-intro-pattern".
 From V Require Import Lib.Base C42.Model C42.Tac C42.InvB C42.InvO C42.InvS.
 
 (* without cancellation nothing exits, nothing is dropped, Stop has not begun *)
@@ -97,7 +98,8 @@ Definition InvP4 (s : state) : Prop :=
   /\ (rst s = RApply \/ rst s = RInApply -> exists j, loc s j = LRCur)
   /\ (rst s = RFwd -> exists i, loc s i = LRDone)
   /\ (forall i, loc s i = LRGot -> rst s = RGot)
-  /\ (forall i, loc s i = LRDone -> rdone_ok (rst s) = true).
+  /\ (forall i, loc s i = LRDone -> rdone_ok (rst s) = true)
+  /\ (forall i j, loc s i = LRGot -> loc s j = LRGot -> i = j).
 
 Lemma InvP4_init : InvP4 init.
 Proof. repeat split; cbn; intros; try discriminate. destruct H; discriminate. Qed.
@@ -109,10 +111,9 @@ Proof.
   destruct (loc s i); try discriminate. reflexivity.
 Qed.
 
-Lemma fwd_next_ok s i : InvB s -> loc s i = LRDone -> rdone_ok (rst (fwd_next s)) = true.
+Lemma fwd_next_ok s i : i <= nseq s -> loc s i = LRDone -> rdone_ok (rst (fwd_next s)) = true.
 Proof.
   intros HB L. cbn. destruct (Nat.eqb_spec (cnt is_rdone s) 0) as [E|E]; [|reflexivity].
-  assert (i < nseq s) by (apply (InvB_lt s i HB); rewrite L; discriminate).
   pose proof (cnt_zero_all _ _ E i ltac:(lia)) as Z. rewrite L in Z. discriminate.
 Qed.
 
@@ -125,21 +126,79 @@ Ltac ex_keep :=
 
 Lemma InvP4_step c s l s' : InvB s -> InvO s -> InvP4 s -> step c s l = Some s' -> InvP4 s'.
 Proof.
-  intros HB (_ & _ & O3) (P1 & P2 & P3 & P4 & P5) H.
-  step_prelude HB H; unfold InvP4;
+  intros HB (_ & _ & O3) (P1 & P2 & P3 & P4 & P5 & P6) H. pose proof HB as (B1 & B2 & B3 & B4).
+  step_prelude HB H; unfold InvP4; try subst;
   try match goal with R : rst s = _ |- _ => rewrite R in * end;
-  (split; [|split; [|split; [|split]]]).
+  (split; [|split; [|split; [|split; [|split]]]]).
   all: cbn [loc dst vst aerr nseq tok outst cancel sphase wexit rst nexta errs applied fwdlog panicked
     set_loc set_dst set_vst set_aerr set_sub set_cancel set_sphase inc_wexit set_rst set_nexta set_errs
     push_applied push_fwd set_outst panic_if].
   all: try solve
-  [ intros R; try destruct R as [R|R]; discriminate R
+  [ assumption
+  | intros R; try destruct R as [R|R]; discriminate R
   | intros R; cbn in R; repeat match type of R with context[if ?b then _ else _] => destruct b end; try destruct R as [R|R]; discriminate R
   | intros R; eexists; apply upd_same
-  | intros R; first [specialize (P1 R) | specialize (P2 R) | specialize (P3 R)]; ex_keep
+  | intros R; first [specialize (P1 R) | specialize (P2 R) | specialize (P3 R)];
+    match goal with
+    | X : exists _, loc _ _ = ?L |- _ =>
+      let x := fresh in let Hx := fresh in destruct X as (x & Hx); exists x; rewrite upd_other; [exact Hx|];
+      intros ->; first [congruence | rewrite B3 in Hx by assumption; discriminate Hx]
+    end
   | intros R; apply fwd_next_rfwd in R; exact R
-  | intros k L; upd_cases; try discriminate; eauto; try congruence;
+  | intros _; apply P2; auto
+  | intros R; congruence
+  | intros [R|R]; congruence
+  | intros k L; cbn [loc fwd_next set_rst set_loc] in L; upd_cases; try discriminate; eauto; try congruence;
     first [ specialize (P4 _ L) | specialize (P5 _ L) ]; try discriminate; try congruence
-  | intros k L; cbn [loc fwd_next set_rst] in L; eapply fwd_next_ok; [|exact L]; eapply InvB_step; eauto ].
-  all: idtac "left". all: match goal with |- ?G => idtac G end. Show.
-Admitted.
+  | intros k L; cbn [loc fwd_next set_rst set_loc] in L; upd_cases; try discriminate; exfalso;
+    match goal with L1: loc _ ?a = LRGot, L2: loc _ ?b = LRGot, N : ?a <> ?b |- _ => apply N; apply P6; assumption end
+  | intros k L; apply (fwd_next_ok _ k); [|exact L]; cbn [loc fwd_next set_rst set_loc set_outst set_sub set_errs nseq] in *;
+    upd_cases; try discriminate; match goal with HB : InvB ?s |- _ => assert (k < nseq s) by (apply (InvB_lt s k HB); rewrite L; discriminate) end; lia
+  | intros k1 k2 L1 L2; cbn [loc fwd_next set_rst set_loc] in *; upd_cases; try discriminate; try reflexivity; try (apply P6; assumption);
+    exfalso; first [ specialize (P4 _ L1) | specialize (P4 _ L2) ]; discriminate ].
+Qed.
+
+Lemma reach_InvP4 c s : reach c s -> InvP4 s.
+Proof. induction 1; [apply InvP4_init|eapply InvP4_step; eauto using reach_InvB, reach_InvO]. Qed.
+
+(* an item that left the validate stage unvalidated was not decoded (or the context was cancelled) *)
+Definition past_val (l : location) : bool :=
+  match l with LNone | LSubmitting | LCh 0 | LCh 1 | LW 0 _ | LW 1 PProc | LDropped => false | _ => true end.
+Definition InvG2 (c : cfg) (s : state) : Prop :=
+  forall i, past_val (loc s i) = true -> vst s i = VNone -> von c = true -> dst s i <> DOk \/ cancel s = 2.
+
+Lemma InvG2_init c : InvG2 c init.
+Proof. intros i H. discriminate H. Qed.
+
+Lemma InvG2_step c s l s' : InvB s -> InvS c s -> InvG2 c s -> step c s l = Some s' -> InvG2 c s'.
+Proof.
+  intros HB HS G H. unfold InvG2 in *.
+  assert (S7 : forall i st p, loc s i = LW st p -> stage_ok c st = true) by apply HS.
+  step_prelude HB H; concretize; sproj; intros k Pk Vk VON'; try congruence;
+  upd_cases; try discriminate; auto;
+  try (match goal with L : loc _ ?i = _ |- _ => specialize (G i); rewrite L in G; cbn in G end);
+  try (specialize (G _ Pk Vk VON')); try (specialize (G eq_refl Vk VON'));
+  try (destruct G as [G|G]; [left; exact G|right; try lia; destruct (cancel s); lia]);
+  try (left; unfold dst_ok in *; match goal with |- dst ?s ?i <> DOk => destruct (dst s i); congruence end).
+Qed.
+
+Lemma reach_InvG2 c s : reach c s -> InvG2 c s.
+Proof. induction 1; [apply InvG2_init|eapply InvG2_step; eauto using reach_InvB, reach_InvS]. Qed.
+
+(* only the four channels exist; validatedChan only with validation *)
+Definition InvP6 (c : cfg) (s : state) : Prop :=
+  forall i k, loc s i = LCh k -> k = 0 \/ k = 1 \/ (k = 2 /\ von c = true) \/ k = 3.
+
+Lemma InvP6_init c : InvP6 c init.
+Proof. intros i k H. discriminate H. Qed.
+
+Lemma InvP6_step c s l s' : InvB s -> InvS c s -> InvP6 c s -> step c s l = Some s' -> InvP6 c s'.
+Proof.
+  intros HB HS P H. unfold InvP6 in *.
+  assert (S7 : forall i st p, loc s i = LW st p -> stage_ok c st = true) by apply HS.
+  step_prelude HB H; concretize; sproj; intros k1 k2 L; upd_cases; try discriminate; eauto;
+  injection L as <-; auto.
+Qed.
+
+Lemma reach_InvP6 c s : reach c s -> InvP6 c s.
+Proof. induction 1; [apply InvP6_init|eapply InvP6_step; eauto using reach_InvB, reach_InvS]. Qed.
